@@ -25,7 +25,15 @@ package packets1
 //@   ite(istype(p, *Disconnect), 0x18, ite(istype(p, *WillTopicUpd), 0x1A, ite(istype(p, *WillTopicResp), 0x1B, ite(istype(p, *WillMsgUpd), 0x1C,
 //@   ite(istype(p, *WillMsgResp), 0x1D, 0xFF))))))))))))))))))))))))))))
 
+// Facts about every packet the decoder returns that the session steps of the gateway rely on
+// (their precondition `decodable`); proved here from the Unpack contracts, for every datagram.
+//@ spec decoded(p iface) bool = p != nil &&
+//@      (istype(p, *Publish) ==> p.(*Publish).QOS <= 3) &&
+//@      (istype(p, *Subscribe) ==> p.(*Subscribe).TopicIDType <= 2 && (p.(*Subscribe).TopicIDType == 0 ==> len(p.(*Subscribe).TopicName) >= 1)) &&
+//@      (istype(p, *Unsubscribe) ==> p.(*Unsubscribe).TopicIDType <= 2 && (p.(*Unsubscribe).TopicIDType == 0 ==> len(p.(*Unsubscribe).TopicName) >= 1))
+
 //@ func ReadPacket
+//@   ensures [C22,C24,C25] decoded: err == nil ==> decoded(pkt)
 //@   nopanic [C20]
 //@   at Unpack.0 before let d = arg(1)
 //@   at NewPacketWithHeader.0 after let created = ret
